@@ -1,7 +1,36 @@
 package main
 
-// extractMore / renderMore: facts of the scheduler, jobs and loggers (filled in as
-// the corresponding models are built).
-func extractMore(repo string, fx *Facts) {}
+// Additional fact groups register themselves here from their own files (x_<name>.go):
+//
+//	func init() { register(extractFoo, renderFoo) }
+//
+// extract* fills fx.Extra["foo"] (JSON-able) and calls fx.miss("foo.<shape>") for every shape it cannot find;
+// render* returns Lean source (its own `namespace Generated.Foo … end Generated.Foo`) appended to Facts.lean.
+// The file must only use definitions from modules imported at the top of Facts.lean (core + Cron.Fields/Parse),
+// so emit plain `Nat`/`Int`/`Bool`/`String`/`List` literals.
+var (
+	extractors []func(repo string, fx *Facts)
+	renderers  []func(fx *Facts) string
+)
 
-func renderMore(fx *Facts) string { return "" }
+func register(e func(repo string, fx *Facts), r func(fx *Facts) string) {
+	extractors = append(extractors, e)
+	renderers = append(renderers, r)
+}
+
+func extractMore(repo string, fx *Facts) {
+	if fx.Extra == nil {
+		fx.Extra = map[string]any{}
+	}
+	for _, e := range extractors {
+		e(repo, fx)
+	}
+}
+
+func renderMore(fx *Facts) string {
+	s := ""
+	for _, r := range renderers {
+		s += "\n" + r(fx)
+	}
+	return s
+}
